@@ -92,6 +92,12 @@ def expts(kind, S, dz, centres=None):
     if kind == 'allabs':
         return [{'event': allev, 'pieces': [{'k': 'box', 'lo': [a - 0.25 for a in mc], 'hi': [a + 0.125 for a in mc],
                                              'style': 'abs'}]}]
+    if kind == 'alln2':
+        return [{'event': allev, 'pieces': [{'k': 'n2', 'c': mc, 'r': 0.25}]}]
+    if kind == 'subn2':
+        c0 = mean_centre(S, [0], dz)
+        return [{'event': [0], 'pieces': [{'k': 'n2', 'c': c0, 'r': 0.125}]},
+                {'event': allev, 'pieces': [{'k': 'box', 'lo': [a - 0.25 for a in mc], 'hi': [a + 0.25 for a in mc]}]}]
     if kind == 'sub0':
         c0 = mean_centre(S, [0], dz)
         return [{'event': [0], 'pieces': [{'k': 'box', 'lo': [a - 0.125 for a in c0], 'hi': [a + 0.125 for a in c0]}]}]
@@ -124,6 +130,10 @@ def prob(kind, S):
         return {'kind': 'ninf', 'phat': ph, 'r': 0.125}
     if kind == 'n1':
         return {'kind': 'n1', 'phat': ph, 'r': 0.25}
+    if kind == 'n2':
+        return {'kind': 'n2', 'phat': ph, 'r': 0.09375}
+    if kind == 'kl':
+        return {'kind': 'kl', 'phat': ph, 'r': 0.03125}
     raise ValueError(kind)
 
 
@@ -156,7 +166,7 @@ def make(S=2, dz=1, pal=0, supp='box', wass=False, ex='none', pr='free', okind='
                         pc[key] = pc[key] + ([-10.0] if key == 'lo' else [10.0] if key == 'hi' else [0.0])
                 if 'A' in pc:
                     pc['A'] = [r + [0.0] for r in pc['A']]
-                if pc['k'] in ('n1', 'ninf') or (pc['k'] == 'eq' and pc.get('style') == 'direct'):
+                if pc['k'] in ('n1', 'ninf', 'n2') or (pc['k'] == 'eq' and pc.get('style') == 'direct'):
                     return None
         e['decl'] = ex_decl
     if wass:
@@ -205,6 +215,16 @@ def make(S=2, dz=1, pal=0, supp='box', wass=False, ex='none', pr='free', okind='
         R.append(r)
     if rows == 'robust_bi':
         R.append({'ax': [-1.0, 0.0], 'Az': [[0.0, -abs(wi)] for wi in w], 'cz': list(u), 'c0': 0.25, 'sense': '<='})
+    if rows == 'eqdec' and ny == 2:
+        # equality among decisions only, non-zero constant: y0 + y1 == x1 + 1.5  (event-wise / affine rules on both sides)
+        R.append({'ax': [0.0, -1.0], 'by': [1.0, 1.0], 'c0': -1.5, 'sense': '=='})
+    if rows == 'eqdec' and ny == 1:
+        R.append({'ax': [0.0, -1.0], 'by': [1.0], 'c0': -1.5, 'sense': '=='})
+    if rows == 'eqrob' and ny:
+        # robust equality holding identically in z: y0(z) == x1 + (q*mask).z + 0.5
+        m0 = mask[0]
+        R.append({'ax': [0.0, -1.0], 'by': [1.0] + [0.0] * (ny - 1), 'cz': [-a * b for a, b in zip(q, m0)],
+                  'c0': -0.5, 'sense': '=='})
     if rows == 'Ege':
         R.append({'ax': [1.0, 1.0], 'cz': [-a for a in q], 'c0': 0.25, 'sense': '>=', 'E': True})
     for r in R:
@@ -220,7 +240,8 @@ def make(S=2, dz=1, pal=0, supp='box', wass=False, ex='none', pr='free', okind='
     elif form == 'Ebi':
         pieces = [dict(base, Az=[[0.0, wi] for wi in w], cz=list(u))]
     elif form == 'Epw':
-        pieces = [{'ax': [cost[0] - 2.0, cost[1]], 'cz': [2.0 * a for a in q]}, {'ax': list(cost), 'c0': 0.0}]
+        pieces = [{'ax': [cost[0] - 2.0, cost[1]], 'cz': [2.0 * a for a in q]}, {'ax': list(cost), 'c0': 0.375},
+                  {'ax': [cost[0] + 0.5, cost[1]], 'cz': [-0.5 * a for a in q], 'c0': -0.25}]
         if ny:
             pieces = [dict(p, by=[0.5] + [0.0] * (ny - 1)) for p in pieces]
     elif form == 'R':        # worst case without expectation
@@ -263,6 +284,10 @@ def make(S=2, dz=1, pal=0, supp='box', wass=False, ex='none', pr='free', okind='
                 r['set'] = 'supp'
                 r['supp'] = sp
     spec['rows'] = R
+    if pr in ('n2', 'kl') or ex in ('alln2', 'subn2'):
+        if pr in ('n2', 'kl') and exl:
+            return None
+        spec['solver'] = 'eco'
     spec['tag'] = 'S%d|dz%d%s|%s|%s|%s|%s|ny%d|yp%s|m%s|%s|%s' % (
         S, dz, 'w' if wass else '', supp, ex, pr, okind, ny, ''.join(str(len(b)) for b in spec['ypart']),
         ''.join(str(v) for r in (mask or []) for v in r), rows, att or 'dflt')
@@ -337,6 +362,16 @@ def _gen(pal, thorough):
                     for ex, pr in (('none', 'free'), ('allbox', 'fixed'), ('sub0', 'box')):
                         for style in ('A', 'B', 'C'):
                             yield make(S=S, dz=2, pal=pal, supp=supp, ex=ex, pr=pr, rows=rows, att=att, style=style)
+    # equality rows (deterministic among decisions with a constant; robust identity in z)
+    for S in (1, 2, 3):
+        for rows in ('eqdec', 'eqrob'):
+            for ny in (1, 2):
+                for bits in itertools.product((1, 0), repeat=2):
+                    for part in ([[s] for s in range(S)], [list(range(S))]):
+                        for supp, ex, pr in (('box', 'none', 'fixed'), ('n1', 'allbox', 'box'), ('abs', 'sub0', 'free')):
+                            yield make(S=S, dz=2, pal=pal, supp=supp, ex=ex, pr=pr, rows=rows, ny=ny, ypart=part,
+                                       mask=[list(bits)] + ([[1, 1]] if ny == 2 else []),
+                                       okind='minsup_E' if bits[0] else 'minsup_Ebi')
     # Q4: objective kinds
     for S in (1, 2, 3):
         for okind in ('minsup_E', 'maxinf_E', 'minsup_Ebi', 'maxinf_Ebi', 'minsup_Epw', 'maxinf_Epw', 'minsup_R',
@@ -345,6 +380,22 @@ def _gen(pal, thorough):
                 for ex, pr in (('none', 'free'), ('allbox', 'fixed'), ('alleq', 'n1'), ('sub0', 'box')):
                     for ny in (0, 1):
                         yield make(S=S, dz=1 + (S % 2), pal=pal, supp=supp, ex=ex, pr=pr, okind=okind, ny=ny)
+    # curved probability sets (2-norm, KL) and 2-norm expectation sets: cone branches of the lifted support
+    for S in (1, 2, 3):
+        for pr in ('n2', 'kl'):
+            for supp in ('single', 'box', 'n1'):
+                for okind in ('minsup_E', 'minsup_Epw', 'maxinf_E', 'minsup_Ebi'):
+                    for rows in ('basic', 'basic+E'):
+                        for part in ([[s] for s in range(S)], [list(range(S))]):
+                            yield make(S=S, dz=1 + S % 2, pal=pal, supp=supp, ex='none', pr=pr, okind=okind, rows=rows,
+                                       ny=0 if okind == 'minsup_Epw' else 1, ypart=part)
+        for ex in ('alln2', 'subn2'):
+            for pr in ('free', 'fixed', 'box'):
+                for supp in ('box', 'n1', 'abs'):
+                    for dz in (1, 2):
+                        for okind in ('minsup_E', 'minsup_Epw'):
+                            yield make(S=S, dz=dz, pal=pal, supp=supp, ex=ex, pr=pr, okind=okind,
+                                       ny=0 if okind == 'minsup_Epw' else 1, rows='basic+E')
     # global support declaration
     for S in (2, 3):
         for supp in SUPPS:
